@@ -1,4 +1,5 @@
 import Femio.Lemmas.ResFileProps
+import Femio.Lemmas.ResTextProps
 import Femio.Gen.Tables
 
 /-! C02 — FrontISTR result files: every value lands on its id, variable, component and step.
@@ -74,6 +75,140 @@ example : WFFile 1 2 3 5 (fun _ => true) .old exFile :=
 
 example : readRes (fun _ => true) (renderFile .v2 ['c'] [.v 0] 1 1 2 3 5 exFile) 2 1 = some exFile := by decide
 example : (renderFile .old ['c'] [.v 0] 1 1 2 3 5 exFile).length = 3 + (2 + 2 + 2 * 3) + (1 + 1 + 2) := by decide
+
+/-! ### character level: printed lines, whitespace lexer, whole-file text -/
+open Femio.Text in
+/-- **C02_lex_print_line** — for every token line whose tokens are counts / ids, names (non-empty, no whitespace,
+    first character a letter or `*`) and value numerals (non-empty, no whitespace, not a decimal integer, first
+    character not a letter or `*` — e.g. `-1.2500000000000000E+03`): splitting the printed line
+    (`' '.join(tokens)`, with or without the trailing blank the solver puts after numeric lines) at Python whitespace
+    and classifying the pieces as the reader does (`\d+` → integer, `^[\*a-zA-Z]` → name, else value) gives the token
+    line back. -/
+theorem C02_lex_print_line (trail : Bool) (l : Line Str) (h : l.all resTokOKB = true) :
+    lexLine (printLine trail l) = l :=
+  lexLine_printLine trail l h
+
+example : lexLine (printLine true [.n 12, .v "-1.2500000000000000E+03".toList, .v "0.0000000000000000E+00".toList])
+    = [.n 12, .v "-1.2500000000000000E+03".toList, .v "0.0000000000000000E+00".toList] := by decide
+example : printLine true [.n 12, .v "-1.25E+03".toList] = "12 -1.25E+03 ".toList ∧ printLine true [.w "NodalSTRESS".toList] = "NodalSTRESS".toList := by
+  decide
+example : lexLine " 3\t 1  6 \r".toList = [.n 3, .n 1, .n 6] := by decide
+
+open Femio.Text in
+theorem header_lexed_ok (L : Layout) (comment : List Char) (time : Line Str) (a b c d : Nat) (trail : Bool) :
+    HeaderOK L (((match L with
+      | .old => headerOld a b c d
+      | .v2 => headerV2 comment time a b c d).map (printLine trail)).map lexLine) := by
+  cases L with
+  | old =>
+    have : ((headerOld a b c d : List (Line Str)).map (printLine trail)).map lexLine = headerOld a b c d := by
+      apply map_lex_print_id
+      intro l hl
+      simp only [headerOld, List.mem_cons, List.not_mem_nil, or_false] at hl
+      rcases hl with rfl | rfl | rfl
+      · decide
+      · rfl
+      · rfl
+    simp only [this]
+    exact headerOld_ok a b c d
+  | v2 =>
+    refine ⟨by simp [headerV2, skipV2], ?_⟩
+    rw [List.any_eq_true]
+    have hm : lexLine (printLine trail [.w marker]) = [.w marker] := lexLine_printLine trail _ (by decide)
+    refine ⟨[.w marker], ?_, by decide⟩
+    exact List.mem_map.mpr ⟨printLine trail [.w marker], List.mem_map.mpr ⟨[.w marker], by simp [headerV2], rfl⟩, hm⟩
+
+open Femio.Text in
+/-- **C02_parse_render_lines** — `C02_parse_render` on lines of characters: every token line of the rendered file
+    printed as text (trailing blank after numeric lines or not) and lexed again at whitespace, then read by
+    `_read_res`, gives back exactly `f` — for both layouts, any header comment / time line, all wraps ≥ 1, with the
+    E-notation test being the reader's regular expression on the numerals' text. -/
+theorem C02_parse_render_lines (L : Layout) (comment : List Char) (time : Line Str) (nEhdr : Nat)
+    (wcN wvN wcE wvE : Nat) (f : ResFile Str) (hf : WFFile wcN wvN wcE wvE eNotStr L f) (hok : fileOKB f = true)
+    (trail : Bool) (nElems : Nat) (hnE : ∀ e, f.elemental = some e → nElems = e.rows.length) :
+    readRes eNotStr (((renderFile L comment time nEhdr wcN wvN wcE wvE f).map (printLine trail)).map lexLine)
+      f.nodal.rows.length nElems = some f := by
+  have hbody := map_lex_print_id trail (renderBody wcN wvN wcE wvE f) (fun l hl =>
+    (renderBody_ok wcN wvN wcE wvE f ⟨hf.nodal.wc, hf.nodal.wv⟩ (by
+      intro hne
+      cases he : f.elemental with
+      | none => exact absurd he hne
+      | some e => exact ⟨(hf.elemental e he).wc, (hf.elemental e he).wv⟩) hok l hl).1)
+  unfold renderFile
+  rw [List.map_append, List.map_append, hbody]
+  exact parse_render_file L _ (header_lexed_ok L comment time _ _ _ _ trail) eNotStr _ _ _ _ f hf.nodal hf.enot
+    hf.elemental hf.names _ hnE
+
+open Femio.Text in
+/-- **C02_parse_render_chars** — the whole result file as one string of characters (every line terminated by
+    `'\n'`): `_read_res` run on the lines between the newlines (`StringSeries.read_file`), each lexed at whitespace,
+    recovers exactly `f` from the text `fileText trail (renderFile …)`. `hdrOKB`: in the 2.0 layout the comment is
+    one whitespace-free word and the time line is not empty. -/
+theorem C02_parse_render_chars (L : Layout) (comment : List Char) (time : Line Str) (nEhdr : Nat)
+    (wcN wvN wcE wvE : Nat) (f : ResFile Str) (hf : WFFile wcN wvN wcE wvE eNotStr L f) (hok : fileOKB f = true)
+    (hhdr : hdrOKB L comment time = true)
+    (trail : Bool) (nElems : Nat) (hnE : ∀ e, f.elemental = some e → nElems = e.rows.length) :
+    readResText (fileText trail (renderFile L comment time nEhdr wcN wvN wcE wvE f)) f.nodal.rows.length nElems
+      = some f := by
+  have hall : ∀ l ∈ renderFile L comment time nEhdr wcN wvN wcE wvE f, printableB l = true := by
+    intro l hl
+    unfold renderFile at hl
+    rcases List.mem_append.mp hl with hl | hl
+    · cases L with
+      | old =>
+        simp only [headerOld, List.mem_cons, List.not_mem_nil, or_false] at hl
+        rcases hl with rfl | rfl | rfl
+        · decide
+        · exact printable_of_ok _ rfl (by simp)
+        · exact printable_of_ok _ rfl (by simp)
+      | v2 =>
+        simp only [hdrOKB, Bool.and_eq_true] at hhdr
+        simp only [headerV2, List.mem_cons, List.not_mem_nil, or_false] at hl
+        rcases hl with rfl | rfl | rfl | rfl | rfl | rfl | rfl | rfl | rfl | rfl | rfl
+        · decide
+        · decide
+        · simp [printableB, showTok, hhdr.1]
+        · decide
+        · decide
+        · decide
+        · decide
+        · exact hhdr.2
+        · decide
+        · exact printable_of_ok _ rfl (by simp)
+        · exact printable_of_ok _ rfl (by simp)
+    · have := renderBody_ok wcN wvN wcE wvE f ⟨hf.nodal.wc, hf.nodal.wv⟩ (by
+        intro hne
+        cases he : f.elemental with
+        | none => exact absurd he hne
+        | some e => exact ⟨(hf.elemental e he).wc, (hf.elemental e he).wv⟩) hok l hl
+      exact printable_of_ok l this.1 this.2
+  unfold readResText lexFile fileText
+  rw [fileLines_unlines_nonempty]
+  · exact C02_parse_render_lines L comment time nEhdr wcN wvN wcE wvE f hf hok trail nElems hnE
+  · intro s hs
+    obtain ⟨l, hl, rfl⟩ := List.mem_map.mp hs
+    exact (printLine_props trail l (hall l hl)).1
+  · intro s hs
+    obtain ⟨l, hl, rfl⟩ := List.mem_map.mp hs
+    exact (printLine_props trail l (hall l hl)).2
+
+open Femio.Text in
+/-- a small printed result file (old layout): 2 nodes, `U` (3) + `T` (1) wrapped at 2 values per line, one element -/
+def exFileText : ResFile Str :=
+  ⟨⟨[⟨['U'], 3⟩, ⟨['T'], 1⟩], [(10, ["1.5E+00".toList, "-2.0E-03".toList, "0.0E+00".toList, "4.0E+00".toList]),
+      (4, ["5.0E+00".toList, "6.0E+00".toList, "7.0E+00".toList, "8.0E+300".toList])]⟩,
+   some ⟨[⟨['S'], 2⟩], [(7, ["9.0E+00".toList, "1.0E+01".toList])]⟩⟩
+
+example : fileOKB exFileText = true := by decide +kernel
+example : WFFile 1 2 3 5 eNotStr .old exFileText :=
+  ⟨⟨⟨by decide, by decide, by decide, by decide, by decide⟩, by decide⟩, by decide +kernel,
+   fun e he => by cases he; exact ⟨⟨by decide, by decide, by decide, by decide, by decide⟩, by decide⟩,
+   fun _ => ⟨by decide, fun e he => by cases he; decide⟩⟩
+example : fileText true (renderFile .old [] [] 1 1 2 3 5 exFileText) =
+    ("*fstrresult\n2 1 \n2 1 \n3 \n1 \nU\nT\n10 \n1.5E+00 -2.0E-03 \n0.0E+00 4.0E+00 \n4 \n5.0E+00 6.0E+00 \n7.0E+00 8.0E+300 \n"
+      ++ "2 \nS\n7 \n9.0E+00 1.0E+01 \n").toList := by decide +kernel
+example : readResText (fileText true (renderFile .old [] [] 1 1 2 3 5 exFileText)) 2 1 = some exFileText := by
+  decide +kernel
 
 /-- **C02_split_point** — the nodal / elemental boundary found by walking back from the second cluster of name
     lines is exactly the end of the nodal section, whenever the nodal values are in E-notation (`he`: an
@@ -223,6 +358,21 @@ theorem C02_timeseries_is_stack (eNot : V → Bool) (typeIds : List (Nat × List
   cases hs : selectSteps true files with
   | nil => exact absurd hs hsel
   | cons a t => simp [Cfg.fixed, readSingle]
+
+open Femio.Text in
+/-- **C02_single_chars** — the single-step reading (`readSingle`, the unit of `C02_timeseries_is_stack` and
+    `C02_latest_is_single`, which hold for arbitrary lexed files) of the characters of a rendered result file is the
+    reading of its data: every step of a directory of text files contributes exactly `reading typeIds f`. -/
+theorem C02_single_chars (L : Layout) (comment : List Char) (time : Line Str) (nEhdr : Nat)
+    (wcN wvN wcE wvE : Nat) (f : ResFile Str) (hf : WFFile wcN wvN wcE wvE eNotStr L f) (hok : fileOKB f = true)
+    (hhdr : hdrOKB L comment time = true) (trail : Bool) (nElems : Nat)
+    (hnE : ∀ e, f.elemental = some e → nElems = e.rows.length) (typeIds : List (Nat × List Nat)) :
+    readSingle eNotStr typeIds f.nodal.rows.length nElems
+        (lexFile (fileText trail (renderFile L comment time nEhdr wcN wvN wcE wvE f)))
+      = some (reading typeIds f) := by
+  have := C02_parse_render_chars L comment time nEhdr wcN wvN wcE wvE f hf hok hhdr trail nElems hnE
+  unfold readResText at this
+  simp [readSingle, this]
 
 /-- what `stackAttrs` (= `update_time_series`) returns: the variables and ids of the first step, and for every
     variable one slice per step, slice `k` being that variable's table in the `k`-th reading — positionally. -/
